@@ -612,10 +612,11 @@ type lruCase struct {
 	Cap    int      `json:"cap"`
 	Class  string   `json:"class"`
 	Ecache bool     `json:"ecache"`
-	N      int      `json:"n"`              // number of generated calls
-	Seed   int64    `json:"seed"`           // generator seed of this history
-	Drop   []string `json:"drop,omitempty"` // dynamic call kinds that are skipped (culprit analysis)
-	Stop   int      `json:"stop,omitempty"` // informational: index of the call after which the bound broke
+	N      int      `json:"n"`               // number of generated calls
+	Seed   int64    `json:"seed"`            // generator seed of this history
+	Drop   []string `json:"drop,omitempty"`  // dynamic call kinds that are skipped (culprit analysis)
+	Stop   int      `json:"stop,omitempty"`  // informational: index of the call after which the bound broke
+	Calls  string   `json:"calls,omitempty"` // informational: the first executed calls
 }
 
 type lruOp struct {
